@@ -231,6 +231,39 @@ theorem Framed.checkLet (name : Bytes) :
     simp only [Bool.false_eq_true, if_false, exec_pure, some_iff]
     simp [h]
 
+/-! ### `checkLoopFunc` -/
+
+theorem isLoopVar_iff (vs : List Check.Binding) (k : Bytes) :
+    isLoopVar vs k = true ↔ ∃ b ∈ envOf vs, b.name = k ∧ b.isLet = false := by
+  simp only [isLoopVar, envOf, List.any_eq_true, Bool.and_eq_true, beq_iff_eq, Bool.not_eq_true',
+    List.mem_map]
+  constructor
+  · rintro ⟨v, hv, h1, h2⟩
+    exact ⟨_, ⟨v, hv, rfl⟩, h1, h2⟩
+  · rintro ⟨b, ⟨v, hv, rfl⟩, h1, h2⟩
+    exact ⟨v, hv, h1, h2⟩
+
+theorem Framed.checkLoopFunc (name : Bytes) (args : ExprList) :
+    Framed (checkLoopFunc args) (fun env => LoopArgOk env (name, args)) (fun _ => []) [] := by
+  intro st st'
+  show _ ↔ LoopArgOk (envOf st.vars) (name, args) ∧ st' = after st [] []
+  simp only [Check.checkLoopFunc, after_nil, LoopArgOk]
+  cases loopArg args with
+  | none => simp [exec_reject]
+  | some key =>
+    simp only [exec_get_bind]
+    by_cases hv : isLoopVar st.vars key = true
+    · have hx := (isLoopVar_iff st.vars key).mp hv
+      simp only [hv, if_true, exec_pure, some_iff]
+      exact ⟨fun h => ⟨⟨key, rfl, hx⟩, h⟩, fun h => h.2⟩
+    · have hx := mt (isLoopVar_iff st.vars key).mpr hv
+      simp only [hv, Bool.false_eq_true, if_false, exec_reject]
+      constructor
+      · intro h; cases h
+      · rintro ⟨⟨x, hx1, hx2⟩, _⟩
+        cases hx1
+        exact absurd hx2 hx
+
 theorem find_callee (reg : List Check.Template) (name : Bytes) :
     reg.find? (fun t => t.name == name) = callee reg name := by
   simp only [callee]
